@@ -34,8 +34,7 @@ theorem C15_iter (bytes : List UInt8) (hp : (parse bytes).fail = none) (n : Nat)
     notes (parse (C07.fmtN n (C07.fmtB bytes))).tree = notes (parse bytes).tree := by
   rw [C07.fmtN_tree bytes hp n]; exact ⟨rfl, Spok.notes_norm _⟩
 
-example : (parse (flat (format Fmt.exTree))).fail = none →
-    notes (parse (C07.fmtN 4 (C07.fmtB (flat (format Fmt.exTree))))).tree = notes (parse (flat (format Fmt.exTree))).tree :=
-  fun h => (C15_iter _ h 4).2
+example : notes (parse (C07.fmtN 4 (C07.fmtB (flat (format Fmt.exTree))))).tree = notes (parse (flat (format Fmt.exTree))).tree :=
+  (C15_iter _ C07.exText_parses 4).2
 
 end Spok.Props.C15
